@@ -326,11 +326,22 @@ def lockstep(ctx, report, rule, facts, config):
                     for e in pl["p"]:
                         if e["k"] == "field" and e.get("adt") == A.SB and e.get("name") in TABLES and pl["p"][-1] is e:
                             n_moves += 1
-                            ok = b.qname == A.SB + "::build" and e["name"] == "stages" and st["place"]["l"] == 0 and not st["place"]["p"]
+                            ok = b.qname == A.SB + "::build" and e["name"] == "stages" and _build_returns_stages(ctx, facts)
                             report.ob(rule, "move-out/%s/%s" % (b.qname, e["name"]), ok,
                                       "`%s` is moved out of the builder in %s" % (e["name"], b.qname) if not ok else "build returns the stage list unchanged",
                                       site=b.loc(blk_i), config=config)
     report.floor(rule, "moves of builder tables", n_moves, 1, config=config)
+
+
+def _build_returns_stages(ctx, facts):
+    """StagesBuilder::build hands out exactly the stage list it accumulated."""
+    from . import semq as Q
+    try:
+        ev, ends = Q.sem(ctx, facts, A.SB + "::build")
+    except Exception:
+        return False
+    rets = [e for e in ends if e.kind == "return"]
+    return bool(rets) and all(Q.strip(ev, e.ret) == ("field", ("param", 1), "stages", A.SB) for e in rets) and not [e for e in ends if e.kind == "diverge"]
 
 
 # ------------------------------------------------------------------ pool-crossing inventory
